@@ -40,7 +40,16 @@ Env == <<
   [n |-> "W2",  kind |-> "type", params |-> <<"X">>, ty |-> OO(<<Prop("c", Ref("InI"), FALSE), Prop("d", Param("X"), FALSE)>>)],
   \* a declared name that looks like the name generated for an instantiation (G<string>)
   [n |-> "G_string", kind |-> "type", ty |-> OO(<<Prop("v", TNumber, FALSE)>>)],
-  [n |-> "Row", kind |-> "type", ty |-> Tup(<<TString, TNumber>>, <<TBoolean>>)]
+  [n |-> "Row", kind |-> "type", ty |-> Tup(<<TString, TNumber>>, <<TBoolean>>)],
+  \* binders: the key variable of a mapped type shadows a type parameter of the same name; generic bodies that use type operators
+  [n |-> "Tagged", kind |-> "type", params |-> <<"K">>,
+     ty |-> OO(<<Prop("kind", Param("K"), FALSE), Prop("cells", MappedK("K", Uni(<<LS("x"), LS("y")>>), Param("K"), FALSE), FALSE)>>)],
+  [n |-> "Plain", kind |-> "type", params |-> <<"V">>,
+     ty |-> OO(<<Prop("kind", Param("V"), FALSE), Prop("cells", MappedK("K", Uni(<<LS("x"), LS("y")>>), Param("K"), FALSE), FALSE)>>)],
+  [n |-> "Nul", kind |-> "type", params |-> <<"X">>, ty |-> MappedK("K", KeyOf(Param("X")), Uni(<<Index(Param("X"), Param("K")), TNull>>), FALSE)],
+  [n |-> "PG",  kind |-> "type", params |-> <<"X">>, ty |-> Util("Partial", <<OO(<<Prop("a", Param("X"), FALSE), Prop("b", Arr(Param("X")), FALSE)>>)>>)],
+  [n |-> "CG",  kind |-> "type", params |-> <<"X">>, ty |-> Cond(Param("X"), TString, LS("s"), LS("o"))],
+  [n |-> "Two", kind |-> "type", params |-> <<"A", "B">>, ty |-> OO(<<Prop("l", Param("A"), FALSE), Prop("r", Param("B"), FALSE), Prop("n", App("G", <<Param("B")>>), TRUE)>>)]
 >>
 RO == Ref("O")
 RP == Ref("P")
@@ -78,7 +87,15 @@ ULeaves == <<
   App("W", <<TString>>), OO(<<Prop("w", App("W", <<TString>>), FALSE), Prop("i", Ref("InX"), FALSE)>>),
   App("W2", <<TString>>), OO(<<Prop("w", App("W2", <<TBoolean>>), FALSE), Prop("c", Ref("InI"), FALSE)>>),
   OO(<<Prop("i", Ref("InX"), FALSE), Prop("w", App("W", <<TBoolean>>), FALSE)>>),
-  OO(<<Prop("g", App("G", <<TString>>), FALSE), Prop("u", Ref("G_string"), FALSE)>>)
+  OO(<<Prop("g", App("G", <<TString>>), FALSE), Prop("u", Ref("G_string"), FALSE)>>),
+  \* mapped types whose value mentions the key variable; nested binders with the same and with different names
+  MappedK("K", RK, Param("K"), FALSE), MappedK("K", TString, Param("K"), FALSE),
+  MappedK("K", Uni(<<LS("r1"), LS("r2")>>), MappedK("K", Uni(<<LS("c1"), LS("c2")>>), Param("K"), FALSE), FALSE),
+  MappedK("K", RK, MappedK("J", Uni(<<LS("c1"), LS("c2")>>), OO(<<Prop("k", Param("K"), FALSE), Prop("j", Param("J"), FALSE)>>), FALSE), FALSE),
+  MappedK("K", KeyOf(RP), Index(RP, Param("K")), FALSE), MappedK("K", KeyOf(RO), Arr(Index(RO, Param("K"))), TRUE),
+  App("Tagged", <<LS("point")>>), App("Plain", <<LS("point")>>), App("Nul", <<RP>>), App("Nul", <<RO>>), App("PG", <<TNumber>>),
+  App("CG", <<LS("a")>>), App("CG", <<TNumber>>), App("G", <<MappedK("K", RK, Param("K"), FALSE)>>),
+  App("Two", <<TString, TNumber>>), App("Two", <<TNumber, TString>>), App("Two", <<App("Two", <<LS("a"), LS("b")>>), TNull>>)
 >>
 
 VARIABLES ty, depth, last
